@@ -15,6 +15,7 @@ HEADERS = [
     "message_text", "choices", "save_name", "no_response", "result_category", "image", "attachments",
     "urn_scheme", "obj_id", "webhook.url", "webhook.method", "webhook.headers", "include_if",
     "loop_variable", "data_sheet", "data_row_id", "template_arguments", "_nodeId", "node_name",
+    "audio", "video", "_ui_position",
 ]
 
 ACTION_TYPES = [
@@ -234,6 +235,10 @@ class SheetGen:
                 row["image"] = "http://x/i.png"
             if rng.random() < 0.1:
                 row["attachments"] = "audio:http://x/a.mp3;video:http://x/v.mp4"
+            if rng.random() < 0.08:
+                row["audio"] = "http://x/b.mp3"
+            if rng.random() < 0.08:
+                row["video"] = "http://x/w.mp4"
         elif t == "save_value":
             row["message_text"] = f"val{n}"
             row["save_name"] = rng.choice(["color", "Fav Food", "age"])
@@ -285,6 +290,8 @@ class SheetGen:
         elif t == "transfer_airtime":
             row["message_text"] = "USD;5|KES;20.5"
             row["save_name"] = "air res"
+        if rng.random() < 0.12:
+            row["_ui_position"] = f"{rng.randint(0, 900)};{rng.randint(0, 900)}"
         edges = self._edges()
         self._emit(row, edges)
         self.nodes.append(info)
